@@ -389,25 +389,7 @@ func registerIntrinsics(e *Engine) {
 		x.stubRet[name] = res
 		return nil
 	})
-	reg("vDocument", func(x *Exec, a []Value) Value {
-		dt := x.eng.findType("github.com/go-openapi/loads", "Document")
-		if dt == nil {
-			panic(unsupported("loads.Document not in program"))
-		}
-		st := dt.Underlying().(*types.Struct)
-		sv := zeroValue(dt).(*StructVal)
-		nf := &StructVal{F: append([]Value{}, sv.F...)}
-		newFn := x.eng.findFunc("github.com/go-openapi/analysis", "New")
-		for i := 0; i < st.NumFields(); i++ {
-			switch st.Field(i).Name() {
-			case "spec", "origSpec":
-				nf.F[i] = a[0]
-			case "Analyzer":
-				nf.F[i] = x.callFunction(newFn, []Value{a[0]}, nil)
-			}
-		}
-		return mkPtr(&Cell{V: nf})
-	})
+	reg("vDocument", func(x *Exec, a []Value) Value { return x.makeDocument(a[0]) })
 	reg("vCallLog", func(x *Exec, a []Value) Value { return mkStrSlice(x.calllog) })
 
 	registerLibModels(e)
@@ -415,6 +397,7 @@ func registerIntrinsics(e *Engine) {
 	registerRegexpModels(e)
 	registerBytealg(e)
 	registerSpecModel(e)
+	registerCloneModels(e)
 }
 
 // ---------------------------------------------------------------------------
@@ -717,6 +700,10 @@ func registerLibModels(e *Engine) {
 		return &MapVal{M: &MapObj{KeyT: types.Typ[types.String]}}
 	})
 	always("github.com/kr/pretty.Sprint", func(x *Exec, a []Value) Value { return mkStr("") })
+	// pretty-printed JSON text is never inspected by the planners: arbitrary (here empty) bytes
+	always("encoding/json.MarshalIndent", func(x *Exec, a []Value) Value {
+		return TupleVal{&SliceVal{A: &ArrayObj{}, Len: 0, Cap: 0}, nilIface}
+	})
 	always("encoding/gob.Register", func(x *Exec, a []Value) Value { return nil })
 	always("github.com/go-openapi/swag.IsZero", func(x *Exec, a []Value) Value {
 		iv := a[0].(*IfaceVal)
@@ -1049,3 +1036,26 @@ func (x *Exec) deepEqual(a, b Value) *Term {
 
 var _ = math.Abs
 var _ = sort.Strings
+
+// makeDocument builds a loads.Document around a *spec.Swagger (Analyzer = analysis.New(spec))
+func (x *Exec) makeDocument(sw Value) Value {
+	dt := x.eng.findType("github.com/go-openapi/loads", "Document")
+	if dt == nil {
+		panic(unsupported("loads.Document not in program"))
+	}
+	st := dt.Underlying().(*types.Struct)
+	sv := zeroValue(dt).(*StructVal)
+	nf := &StructVal{F: append([]Value{}, sv.F...)}
+	newFn := x.eng.findFunc("github.com/go-openapi/analysis", "New")
+	for i := 0; i < st.NumFields(); i++ {
+		switch st.Field(i).Name() {
+		case "spec":
+			nf.F[i] = sw
+		case "origSpec":
+			nf.F[i] = deepCopy(sw, map[*Cell]*Cell{})
+		case "Analyzer":
+			nf.F[i] = x.callFunction(newFn, []Value{sw}, nil)
+		}
+	}
+	return mkPtr(&Cell{V: nf})
+}
